@@ -53,13 +53,35 @@ def _detect_operation(tokens: list[str]) -> str | None:
     return None
 
 
-def _extract_to_command(tokens: list[str]) -> str | None:
-    """Extract the command from --to-command flag."""
+def _extract_to_commands(tokens: list[str]) -> list[str]:
+    """Extract the commands of every --to-command option."""
+    commands = []
     for i, t in enumerate(tokens[1:], start=1):
         if t.startswith("--to-command="):
-            return t[13:]
-        if t == "--to-command" and i + 1 < len(tokens):
-            return tokens[i + 1]
+            commands.append(t[13:])
+        elif t == "--to-command" and i + 1 < len(tokens):
+            commands.append(tokens[i + 1])
+    return commands
+
+
+# Other options that make tar run a program of the caller's choosing
+RUNS_PROGRAM_OPTIONS = (
+    "--use-compress-program",
+    "--checkpoint-action",
+    "--rsh-command",
+    "--info-script",
+    "--new-volume-script",
+)
+
+
+def _runs_other_program(tokens: list[str]) -> str | None:
+    for t in tokens[1:]:
+        for opt in RUNS_PROGRAM_OPTIONS:
+            if t == opt or t.startswith(opt + "="):
+                return opt
+        if t.startswith("-") and not t.startswith("--") and ("I" in t or "F" in t):
+            # -I PROG (--use-compress-program), -F SCRIPT (--info-script)
+            return t
     return None
 
 
@@ -69,11 +91,15 @@ def classify(ctx: HandlerContext) -> Classification:
     base = tokens[0] if tokens else "tar"
 
     # Check for --to-command first - delegates to inner command
-    to_command = _extract_to_command(tokens)
-    if to_command:
+    other = _runs_other_program(tokens)
+    if other:
+        return Classification("ask", description=f"{base} {other}")
+
+    to_commands = [c for c in _extract_to_commands(tokens) if c]
+    if to_commands:
         return Classification(
             "delegate",
-            inner_command=to_command,
+            inner_command="\n".join(to_commands),
             description=f"{base} --to-command",
         )
 
